@@ -95,5 +95,11 @@ def main(tier):
                      "consumed bytes + 4-6 replacement tails, maxlen window; non-trivial = decodes to an instruction")
 
 
+
+
+def replay(path):
+    import json
+    return isa.replay_decode_case(json.load(open(path)))
+
 if __name__ == "__main__":
     sys.exit(main(sys.argv[1] if len(sys.argv) > 1 else "quick"))
